@@ -2188,6 +2188,8 @@ def _isinst1(it, v, ty):
             if v.meta.get('cls') is not None:
                 return False
         if isinstance(v, Term):
+            if v.op not in ('cat', 'slice') and isinstance(bytes_len(it, v), K):
+                return ty.name == 'bytes'       # terms that denote byte strings of known length (digests, keys, signatures, cipher text)
             if v.op in ('cat', 'to_bytes', 'sha256', 'tobytes', 'fromhex', 'slice') and ty.name == 'bytes':
                 return True if v.op != 'slice' else None
             if v.op in ('fstr', 'hex', 'decode', 'strfmt'):
